@@ -22,6 +22,9 @@ pub enum Kind {
     Unit,
     Tracked,
     Zst,
+    Big72,
+    Al32,
+    TrackedBig,
 }
 
 #[derive(Clone, Debug, Serialize, Deserialize, PartialEq, Eq, Hash)]
@@ -207,6 +210,9 @@ pub fn exec(case: &Case, acc: &mut Acc) -> Result<(), String> {
         Kind::Unit => exec_typed::<()>(case, acc),
         Kind::Tracked => exec_typed::<Tracked>(case, acc),
         Kind::Zst => exec_typed::<TrackedZst>(case, acc),
+        Kind::Big72 => exec_typed::<harness::registry::Big72>(case, acc),
+        Kind::Al32 => exec_typed::<harness::registry::Al32>(case, acc),
+        Kind::TrackedBig => exec_typed::<harness::registry::TrackedBig>(case, acc),
     }
 }
 
@@ -224,7 +230,7 @@ pub fn main() {
     let draws = args.scale(30, 5);
     let mut g = vec![];
     let mut x = args.seed.wrapping_mul(0x9E37_79B9_7F4A_7C15) | 1;
-    for kind in [Kind::U8, Kind::U64, Kind::Unit, Kind::Tracked, Kind::Zst] {
+    for kind in [Kind::U8, Kind::U64, Kind::Unit, Kind::Tracked, Kind::Zst, Kind::Big72, Kind::Al32, Kind::TrackedBig] {
         for &(n, m) in NM_PAIRS {
             for form in 0..3u8 {
                 for _ in 0..(if n * m > 100 { 2 } else { draws }) {
@@ -250,7 +256,7 @@ pub fn main() {
         Report {
             prop: PROP,
             level: "exploration",
-            rule: "case = (element kind, inner length N, outer length M, form, seeded values): all (N, M) in 0..=6 x 0..=6 plus (1,1024), (1024,1), (16,64), (64,16), (3,341), (341,3), (32,32), (2,500), (1000,0), (0,1000), (7,9); owned, & and &mut forms of flatten and (N >= 1) of unflatten; kinds u8, u64, (), drop-tracked, zero-sized tracked. \
+            rule: "case = (element kind, inner length N, outer length M, form, seeded values): all (N, M) in 0..=6 x 0..=6 plus (1,1024), (1024,1), (16,64), (64,16), (3,341), (341,3), (32,32), (2,500), (1000,0), (0,1000), (7,9); owned, & and &mut forms of flatten and (N >= 1) of unflatten; kinds u8, u64, (), drop-tracked, zero-sized tracked, 72-byte [u64;9], 32-byte-aligned, 96-byte drop-tracked. \
                    Oracle: flat[i*N + j] == nested[i][j] by value and identity; unflatten(flatten(x)) == x and the converse; by-reference forms return the source's address and size_of_val; writes through the &mut regrouped view are read back through the original; drop registry balanced. \
                    non-trivial = N*M >= 2 with N >= 2 or M >= 2; distinct = distinct case tuples",
             exhaustive: false,
